@@ -16,7 +16,7 @@ func init() {
 	register(&propDef{
 		ID: "C20",
 		Meta: propMeta{
-			Explanation: "Structural necessary conditions of the health property, decided on the SSA form of package server: (R20a) no select-loop can re-enter its select from the case that receives from a close-signalling channel (a closed channel is always ready, so re-entry is a busy spin) — module-wide, with the server's health loop as required instance; (R20b) the package-level health counters are written only by the initialiser and the checker and every access after the loop goroutine is started holds healthMu; (R20c) Server.Close closes the channel the loop selects on, exactly once, and exactly one loop goroutine is started; (R20d) Healthy() can return true only on a path where Disabled is false, the staleness comparison (elapsed > 3*interval) is false, and its value is (counter > 0); (R20e) the value the checker stores into the counter is the configured N exactly when no token failed, otherwise counter-1 guarded by counter>0, otherwise unchanged; a token counts as failed exactly when Ping returned an error. (R20f) every completed check refreshes healthLastPing on every path (staleness means the checker stopped, not that tokens fail); the worker's periodic check runs Ping in its own goroutine and waits in a select that includes the timeout context's Done channel, so a token whose Ping ignores its context cannot wedge the loop. (R20g) the worker token's retry loop reports failure when its attempts are exhausted (the rules of C15 R15a-c on doRetry, which Ping goes through); (R20h) every module type that wraps a token.Token and defines its own Ping returns nil only as the result of the wrapped token's Ping. (R20j) every success return of startHealthCheck comes after `go healthCheckLoop()`: the last-check time keeps being refreshed also when no token is served. (R20i) the closure Daemon.Close runs in its errgroup reaches no return without calling Server.Close, which signals the health loop and closes the Closed channel, also when http.Server.Shutdown failed.",
+			Explanation: "Structural necessary conditions of the health property, decided on the SSA form of package server: (R20a) no select-loop can re-enter its select from the case that receives from a close-signalling channel (a closed channel is always ready, so re-entry is a busy spin) — module-wide, with the server's health loop as required instance; (R20b) the package-level health counters are written only by the initialiser and the checker and every access after the loop goroutine is started holds healthMu; (R20c) Server.Close closes the channel the loop selects on, exactly once, and exactly one loop goroutine is started; (R20d) Healthy() can return true only on a path where Disabled is false, the staleness comparison (elapsed > 3*interval) is false, and its value is (counter > 0); (R20e) the value the checker stores into the counter is the configured N exactly when no token failed, otherwise counter-1 guarded by counter>0, otherwise unchanged; a token counts as failed exactly when Ping returned an error. (R20f) every completed check refreshes healthLastPing on every path (staleness means the checker stopped, not that tokens fail); the worker's periodic check runs Ping in its own goroutine and waits in a select that includes the timeout context's Done channel, so a token whose Ping ignores its context cannot wedge the loop. (R20g) the worker token's retry loop reports failure when its attempts are exhausted (the rules of C15 R15a-c on doRetry, which Ping goes through); (R20h) every module type that wraps a token.Token and defines its own Ping returns nil only as the result of the wrapped token's Ping. (R20j) every success return of startHealthCheck comes after `go healthCheckLoop()`: the last-check time keeps being refreshed also when no token is served. (R20k) TokenCheckFailures, TokenCheckInterval and TokenCheckTimeout are fields of config.ServerConfig that the YAML decoder fills from the keys of the same name in lower case directly under `server:` - declared in the struct itself or in an embedded struct tagged `yaml:\",inline\"` (yaml.v3 does not promote embedded structs by itself), with no renaming tag: the configured threshold is the one the hysteresis uses. (R20i) the closure Daemon.Close runs in its errgroup reaches no return without calling Server.Close, which signals the health loop and closes the Closed channel, also when http.Server.Shutdown failed.",
 			NotDecided:  "the arithmetic over whole check histories and elapsed time (no execution, no model of time); that Ping itself reflects token state.",
 			Assumptions: []string{"a receive from a closed channel never blocks (Go spec)", "sync.Mutex provides mutual exclusion"},
 		},
@@ -195,7 +195,9 @@ func runC20(c *Ctx) {
 		}
 	}
 	const lockKey = "g:server.healthMu"
-	start := p.Func("server.(*Server).startHealthCheck")
+	// the starter: the function that holds the `go healthCheckLoop` statement (startHealthCheck
+	// today; New itself once that helper is inlined)
+	start := healthStarter(p)
 	for _, fn := range p.Funcs {
 		accs := p.accessesOf(fn, keys)
 		if len(accs) == 0 {
@@ -240,8 +242,17 @@ func runC20(c *Ctx) {
 		c.Undecided(rb, "startHealthCheck", "-", "function not found")
 	} else {
 		nCalls := 0
+		if p.FName(start) == "server.New" {
+			// New starts the loop itself: once per server by construction (the go statement is
+			// checked not to be in a loop under R20c)
+			nCalls = 1
+			c.Pass(rb, "startHealthCheck caller server.New", p.Pos(start.Pos()), "New holds the go statement itself")
+		}
 		for _, fn := range p.Funcs {
-			for _, ci := range p.callsIn(fn, "(*server.Server).startHealthCheck") {
+			if nCalls == 1 && start == fn {
+				break
+			}
+			for _, ci := range p.callsIn(fn, p.FName(start)) {
 				nCalls++
 				inLoop := reach(fn, ci.Block().Succs, nil, nil)[ci.Block().Index]
 				c.Check(p.FName(fn) == "server.New" && !inLoop, rb, "startHealthCheck caller "+p.FName(fn), p.Pos(ci.Pos()), "called once from New", "startHealthCheck called from an unexpected place or in a loop (unsynchronised re-initialisation)")
@@ -258,21 +269,17 @@ func runC20(c *Ctx) {
 		c.Undecided(rc, "(*Server).Close", "-", "function not found")
 	} else {
 		c.Analysed(p.FName(closeFn))
-		var closeCalls []*ssa.Call
-		for _, b := range closeFn.Blocks {
-			for _, in := range b.Instrs {
-				if call, ok := in.(*ssa.Call); ok {
-					if bi, ok := call.Call.Value.(*ssa.Builtin); ok && bi.Name() == "close" {
-						closeCalls = append(closeCalls, call)
-					}
-				}
-			}
-		}
+		// the two steps of Close - signalling the loop, closing the tokens - in Close itself or
+		// in a helper of the package Close calls (signalClosed(), closeTokens())
+		st := serverCloseSteps(p, closeFn)
+		closeCalls := st.closeCalls
 		aliasOK := p.closeSignalKeys()["f:server.Server.Closed"]
 		if len(closeCalls) != 1 {
 			c.Fail(rc, "(*server.Server).Close close()", p.Pos(closeFn.Pos()), fmt.Sprintf("%d close() calls, expected 1", len(closeCalls)))
 		} else {
 			cc := closeCalls[0]
+			outer := closeFn
+			closeFn := st.sigHost
 			k := p.memKey(cc.Call.Args[0])
 			// guarded by field != nil
 			g := Guard{Name: "chan != nil", Match: func(f Fact) bool { return f.Kind == NonNil && p.memKey(f.V) == k }}
@@ -287,15 +294,15 @@ func runC20(c *Ctx) {
 				}
 			}
 			inLoop := reach(closeFn, cc.Block().Succs, nil, nil)[cc.Block().Index]
+			if sb := st.sigSite.Block(); closeFn != outer && reach(outer, sb.Succs, nil, nil)[sb.Index] {
+				inLoop = true
+			}
 			c.Check(len(missing) == 0 && reset && !inLoop && k != "" && aliasOK, rc, "(*server.Server).Close close-once", p.Pos(cc.Pos()),
 				"close(ch) guarded by ch != nil, reset to nil in the same block, aliases Server.Closed",
 				fmt.Sprintf("close of the loop's channel is not exactly-once (guard missing=%v reset=%v inLoop=%v aliasesClosed=%v)", missing, reset, inLoop, aliasOK), path...)
 			// close precedes token closing: every token Close call is reachable only after
-			for _, tc := range p.callsIn(closeFn, "(io.Closer).Close", "(token.Token).Close") {
-				if p.Rel(tc.Common().Value.Type().String()) != "token.Token" {
-					continue
-				}
-				before := reachableAfter(closeFn, tc, cc, nil, nil)
+			for _, tc := range st.tokSites {
+				before := reachableAfter(outer, tc, st.sigSite, nil, nil) || tc == st.sigSite
 				c.Check(!before, rc, "(*server.Server).Close order", p.Pos(tc.Pos()), "tokens are closed after the loop was signalled", "a token is closed before the health loop is signalled to stop")
 			}
 		}
@@ -372,6 +379,10 @@ func runC20(c *Ctx) {
 	c.Rule("R20j", "startHealthCheck starts the health loop on every path on which it succeeds", 1)
 	for _, f := range healthLoopAlwaysStarted(c.P) {
 		c.Check(f.OK, "R20j", f.Key, f.Pos, "", f.Detail)
+	}
+	c.Rule("R20k", "the check settings the health checker reads are keys of the `server:` section under their documented names", 3)
+	for _, f := range healthSettingsAreServerKeys(c.P) {
+		c.Check(f.OK, "R20k", f.Key, f.Pos, "", f.Detail)
 	}
 	c.Rule("R20i", "the daemon's shutdown step calls Server.Close, which stops the health loop, on every path", 1)
 	for _, f := range shutdownAlwaysClosesServer(c.P) {
@@ -630,7 +641,11 @@ func c20Hysteresis(c *Ctx, re string) {
 	c.Check(sawDec, re, "(*server.Server).healthCheck has decrement", p.Pos(st.Pos()), "", "no path decrements the counter: consecutive failures are never counted")
 	// store is under healthMu — shared with R20b. The fail list grows only on ping failure:
 	if failList != nil {
-		pingFalse := p.callGuard("pingOne()==false", []string{"(*server.Server).pingOne"}, -1, IsFalse, nil)
+		pingName := "(*server.Server).pingOne"
+		if po := healthPinger(p); po != nil {
+			pingName = p.FName(po)
+		}
+		pingFalse := p.callGuard("pingOne()==false", []string{pingName}, -1, IsFalse, nil)
 		n := 0
 		for _, lf := range phiLeaves(failList, nil, map[*ssa.Phi]bool{}) {
 			call, ok := lf.V.(*ssa.Call)
@@ -646,19 +661,19 @@ func c20Hysteresis(c *Ctx, re string) {
 		}
 		c.Check(n > 0, re, "(*server.Server).healthCheck failed-list grows", p.Pos(hc.Pos()), "", "no token is ever added to the failed list")
 		// every token is pinged: the pingOne call is inside the range loop over s.tokens
-		pings := p.callsIn(hc, "(*server.Server).pingOne")
+		pings := p.callsIn(hc, pingName)
 		c.Check(len(pings) == 1 && reach(hc, pings[0].Block().Succs, nil, nil)[pings[0].Block().Index], re, "(*server.Server).healthCheck pings every token", p.Pos(hc.Pos()), "pingOne called in the loop over tokens", "pingOne is not called once per token inside the loop")
 	}
 	// pingOne: false iff Ping err != nil
-	if po := p.Func("server.(*Server).pingOne"); po == nil {
-		c.Undecided(re, "(*Server).pingOne", "-", "function not found")
+	if po := healthPinger(p); po == nil {
+		c.Undecided(re, "(*Server).pingOne", "-", "no single boolean function of package server calls Token.Ping")
 	} else {
 		c.Analysed(p.FName(po))
 		okG := p.callGuard("Ping err==nil", []string{"(token.Token).Ping"}, -1, IsNil, nil)
 		badG := p.callGuard("Ping err!=nil", []string{"(token.Token).Ping"}, -1, NonNil, nil)
 		for i, r := range returnsOf(po) {
 			b, isConst := boolConst(retVal(r, 0))
-			key := fmt.Sprintf("(*server.Server).pingOne return#%d", i+1)
+			key := fmt.Sprintf("%s return#%d", p.FName(po), i+1)
 			if !isConst {
 				c.Undecided(re, key, p.Pos(r.Pos()), "non-constant return value")
 				continue
@@ -759,4 +774,167 @@ func c20Liveness(c *Ctx) {
 		}
 	}
 	c.Check(okSel, "R20f", "worker waits for the ping or the timeout", p.Pos(wh.Pos()), "select with ctx.Done()", "the worker's health loop does not wait in a select that includes the timeout context's Done channel")
+}
+
+// healthStarter: the one function of package server that holds the `go healthCheckLoop` statement.
+func healthStarter(p *Prog) *ssa.Function {
+	var out *ssa.Function
+	for _, fn := range p.pkgFuncs("server") {
+		for _, b := range fn.Blocks {
+			for _, in := range b.Instrs {
+				if g, ok := in.(*ssa.Go); ok && p.calleeName(g.Common()) == "(*server.Server).healthCheckLoop" {
+					if out != nil && out != fn {
+						return nil
+					}
+					out = fn
+				}
+			}
+		}
+	}
+	return out
+}
+
+// healthPinger: the function of package server that pings one token and answers a boolean
+// (pingOne today) - found by what it does.
+func healthPinger(p *Prog) *ssa.Function {
+	var out *ssa.Function
+	for _, fn := range p.pkgFuncs("server") {
+		res := fn.Signature.Results()
+		if res.Len() != 1 || !isBool(res.At(0).Type()) || len(p.callsIn(fn, "(token.Token).Ping")) == 0 {
+			continue
+		}
+		if out != nil {
+			return nil
+		}
+		out = fn
+	}
+	return out
+}
+
+// closeSteps: where (*Server).Close signals the health loop and where it closes the tokens.
+type closeSteps struct {
+	closeCalls []*ssa.Call       // the close() builtins of the signalling step
+	sigHost    *ssa.Function     // the function that holds them (Close, or the helper it calls)
+	sigSite    ssa.Instruction   // the instruction of Close that is (or calls) the signalling step
+	tokSites   []ssa.Instruction // the instructions of Close that close (or call a helper that closes) tokens
+}
+
+func serverCloseSteps(p *Prog, closeFn *ssa.Function) closeSteps {
+	var st closeSteps
+	st.sigHost = closeFn
+	builtinCloses := func(fn *ssa.Function) []*ssa.Call {
+		var out []*ssa.Call
+		for _, b := range fn.Blocks {
+			for _, in := range b.Instrs {
+				if call, ok := in.(*ssa.Call); ok {
+					if bi, ok := call.Call.Value.(*ssa.Builtin); ok && bi.Name() == "close" {
+						out = append(out, call)
+					}
+				}
+			}
+		}
+		return out
+	}
+	tokenCloses := func(fn *ssa.Function) []ssa.CallInstruction {
+		var out []ssa.CallInstruction
+		for _, tc := range p.callsIn(fn, "(io.Closer).Close", "(token.Token).Close") {
+			if p.Rel(tc.Common().Value.Type().String()) == "token.Token" {
+				out = append(out, tc)
+			}
+		}
+		return out
+	}
+	st.closeCalls = builtinCloses(closeFn)
+	if len(st.closeCalls) == 1 {
+		st.sigSite = st.closeCalls[0]
+	}
+	for _, tc := range tokenCloses(closeFn) {
+		st.tokSites = append(st.tokSites, tc)
+	}
+	for _, ci := range callsOf(closeFn) {
+		h := ci.Common().StaticCallee()
+		if h == nil || h.Pkg != closeFn.Pkg || h.Blocks == nil {
+			continue
+		}
+		if cs := builtinCloses(h); len(cs) > 0 && len(st.closeCalls) == 0 {
+			st.closeCalls, st.sigHost, st.sigSite = cs, h, ci
+		} else if len(cs) > 0 {
+			st.closeCalls = append(st.closeCalls, cs...)
+		}
+		if len(tokenCloses(h)) > 0 {
+			st.tokSites = append(st.tokSites, ci)
+		}
+	}
+	return st
+}
+
+// ------------------------------------------------------------------------------ R20k
+
+// yamlKeysOf: the keys yaml.v3 reads into struct st, mapped to the Go field that receives them:
+// exported fields under their tag name or their lower-cased name; an embedded struct contributes
+// its own keys only when tagged `yaml:",inline"` - otherwise it is ONE key named after its type.
+func yamlKeysOf(st *types.Struct, out map[string]string, depth int) {
+	if depth > 4 {
+		return
+	}
+	for i := 0; i < st.NumFields(); i++ {
+		f := st.Field(i)
+		if !f.Exported() {
+			continue
+		}
+		tag := reflectTag(st.Tag(i), "yaml")
+		name, opts, _ := strings.Cut(tag, ",")
+		if name == "-" {
+			continue
+		}
+		inline := false
+		for _, o := range strings.Split(opts, ",") {
+			if o == "inline" {
+				inline = true
+			}
+		}
+		if inline {
+			t := f.Type()
+			if pt, ok := t.Underlying().(*types.Pointer); ok {
+				t = pt.Elem()
+			}
+			if inner, ok := t.Underlying().(*types.Struct); ok {
+				yamlKeysOf(inner, out, depth+1)
+			}
+			continue
+		}
+		if name == "" {
+			name = strings.ToLower(f.Name())
+		}
+		out[name] = f.Name()
+	}
+}
+
+func healthSettingsAreServerKeys(p *Prog) (out []gFinding) {
+	var cfgPkg *types.Package
+	for _, fn := range p.pkgFuncs("config") {
+		if fn.Pkg != nil {
+			cfgPkg = fn.Pkg.Pkg
+			break
+		}
+	}
+	if cfgPkg == nil {
+		return []gFinding{{Key: "package config", Pos: "-", OK: false, Detail: "package config not found"}}
+	}
+	obj := cfgPkg.Scope().Lookup("ServerConfig")
+	if obj == nil {
+		return []gFinding{{Key: "config.ServerConfig", Pos: "-", OK: false, Detail: "type not found"}}
+	}
+	st, ok := obj.Type().Underlying().(*types.Struct)
+	if !ok {
+		return []gFinding{{Key: "config.ServerConfig", Pos: "-", OK: false, Detail: "not a struct"}}
+	}
+	keys := map[string]string{}
+	yamlKeysOf(st, keys, 0)
+	for _, name := range []string{"TokenCheckFailures", "TokenCheckInterval", "TokenCheckTimeout"} {
+		got := keys[strings.ToLower(name)]
+		out = append(out, gFinding{Key: "server." + strings.ToLower(name) + " fills ServerConfig." + name, Pos: p.Pos(obj.Pos()), OK: got == name,
+			Detail: "the YAML key server." + strings.ToLower(name) + " no longer fills the field the health checker reads (an embedded struct without `yaml:\",inline\"` is one nested key to yaml.v3, a renaming tag changes the key): the configured value is ignored and the default always applies"})
+	}
+	return out
 }
